@@ -1,7 +1,4 @@
-(* REPAIRED VARIANT of Model.v (not referenced by any Props file): identical except for the RECORD
-   start-failure path, see the comment marked REPAIRED.  Kept so that the coordinator can switch over
-   after a fix: commit.
-   Executable model of the request layer of the gortsplib server:
+(* Executable model of the request layer of the gortsplib server:
      server_conn.go        handleRequestOuter / handleRequestInner / handleRequestInSession
      server.go:438-470     findOrCreateSession (author IP check)
      server_session.go     runInner (:593-697), handleRequestInner (:699-1504), run (:540-591)
@@ -340,9 +337,7 @@ Definition handle (cf : cfg) (others : list session) (c : N) (r : req) (s : sess
               (* no media has been set up: the start loop is empty, then :1361 dereferences nil *)
               HPanic
           | Some p =>
-            (* REPAIRED: the medias are started before the state is changed; on failure the writer is
-               destroyed and the session stays in PreRecord *)
-            if proto_eqb p UDP && start_fails (smedias s) then HOk (upd_writer s false) sBad EFatal else
+            if proto_eqb p UDP && start_fails (smedias s) then HOk s2 sBad EFatal else
             match p with
             | UDP => HOk (upd_timer s2 true) sOK (verdict_err r)
             | _ => HOk (upd_pin s2 (Some c)) sOK ESwTcp
